@@ -8,7 +8,7 @@ PID = "C05"
 RULE = ("pairs of shapes of all kinds in general position (int/Fraction exact; a float stream at the property's 1e-5 "
         "tolerance; circle-vs-square in the thorough tier), pairs sharing one complete boundary curve (a polygon with holes against one of its holes or its complement) and nested expressions; for every moment of order <= 2: "
         "m(A|B)+m(A&B) = m(A)+m(B), m(A-B) = m(A)-m(A&B), m(A^B) = m(A|B)-m(A&B), m(~A) = -m(A), Whole counted as 0; "
-        "each operator evaluated on fresh operands; non-trivial = boundaries cross or a composite operand; distinct = SHA-1")
+        "each operator evaluated on fresh operands, for a third of the exact pairs on operands brought into place by an in-place move / scale after a first use elsewhere; non-trivial = boundaries cross or a composite operand; distinct = SHA-1")
 PROOF_STATUS = ("Props/C05.v: m(~A) = -m(A) for all polygonal shapes (reversal), split leaves the area and the winding "
                 "number unchanged, every piece is selected by exactly one of | and & when its midpoint is off the other "
                 "boundary; the identities themselves rest on the recombination premise of C01 (partial)")
@@ -23,7 +23,12 @@ def cases(ctx):
         if env is None:
             continue
         num = "float" if i % 5 == 4 else ("int" if den == 1 and i % 5 == 1 else "frac")
-        yield {"env": env, "num": num}
+        case = {"env": env, "num": num}
+        if i % 3 == 0 and num == "frac":
+            # the same operands reached through a history: B is built elsewhere (displaced or at another size), used
+            # once there, then brought into place by the library's own move / scale, in place
+            case["hist"] = ["move", "scale", "moveA"][(i // 3) % 3]
+        yield case
     for i in range(ctx.n(5, 120)):
         env = OC.component_env(rng, R=rng.choice([8, 12])) if i % 2 else OC.nested_env(rng)
         if env is not None:
@@ -57,6 +62,30 @@ def _m(S, a, b):
     return I.num(I.IntegrateShape.polynomial(S, a, b))
 
 
+def _mk_hist(env, how):
+    """the operands of env, one of them built somewhere else, used there once (& and `in` against the other), and
+    brought into place by the library's own in-place move / scale (exact on Fractions)"""
+    d = (F(40), F(-25))
+    c = F(3)
+    if how == "scale":
+        A = I.mk_shape(env[0], "frac")
+        B = I.mk_shape(U.map_shape(env[1], lambda p: (p[0] * c, p[1] * c)), "frac")
+        I.outcome(lambda: (B & A, B in A, A in B))
+        B.scale(1 / c, 1 / c)
+        return A, B
+    if how == "moveA":
+        A = I.mk_shape(U.map_shape(env[0], lambda p: (p[0] + d[0], p[1] + d[1])), "frac")
+        B = I.mk_shape(env[1], "frac")
+        I.outcome(lambda: (A & B, B in A, A in B))
+        A.move((-d[0], -d[1]))
+        return A, B
+    A = I.mk_shape(env[0], "frac")
+    B = I.mk_shape(U.map_shape(env[1], lambda p: (p[0] + d[0], p[1] + d[1])), "frac")
+    I.outcome(lambda: (B & A, B in A, A in B))
+    B.move((-d[0], -d[1]))
+    return A, B
+
+
 def check(ctx, case):
     fails = []
     if case.get("curved"):
@@ -65,6 +94,9 @@ def check(ctx, case):
     else:
         env, num = case["env"], case["num"]
         mk = lambda: (I.mk_shape(env[0], num), I.mk_shape(env[1], num))
+        if case.get("hist"):
+            ctx.count("history:" + case["hist"])
+            mk = lambda: _mk_hist(env, case["hist"])
         exact = num != "float"
         tol = F(1, 100000)
         ctx.count("num:" + num)
